@@ -477,13 +477,18 @@ fn oracle_overlay(depth: usize) -> bool {
     let steps: Vec<(O, &str)> = ops.iter().flat_map(|o| paths.iter().map(move |p| (*o, *p))).collect();
     let mut seqs: Vec<Vec<(O, &str)>> = vec![vec![]];
     for _ in 0..depth { let mut n = vec![]; for s in &seqs { for st in &steps { let mut t = s.clone(); t.push(*st); n.push(t); } } seqs = n; }
+    // layouts: every layer its own filesystem; all layers sibling directories of ONE filesystem; an upper layer whose directory is created only
+    // after the overlay was constructed
+    for layout in ["separate", "siblings", "late-upper"] {
     for nlayers in [2usize, 3] {
         for seq in &seqs {
             r.case();
-            let upper: VfsPath = MemoryFS::new().into();
+            let shared: VfsPath = MemoryFS::new().into();
+            let upper: VfsPath = match layout { "separate" => MemoryFS::new().into(), "siblings" => { let u = shared.join("up").unwrap(); u.create_dir().unwrap(); u },
+                                                _ => { let um: VfsPath = MemoryFS::new().into(); um.join("up").unwrap() } };
             let mut lowers: Vec<VfsPath> = vec![];
             for i in 1..nlayers {
-                let l: VfsPath = MemoryFS::new().into();
+                let l: VfsPath = if layout == "siblings" { let d = shared.join(&format!("low{}", i)).unwrap(); d.create_dir().unwrap(); d } else { MemoryFS::new().into() };
                 l.join("f").unwrap().create_file().unwrap().write_all(format!("lower{}", i).as_bytes()).unwrap();
                 l.join("d").unwrap().create_dir().unwrap();
                 l.join("d/g").unwrap().create_file().unwrap().write_all(b"g").unwrap();
@@ -491,6 +496,7 @@ fn oracle_overlay(depth: usize) -> bool {
             }
             let mut layers = vec![upper.clone()]; layers.extend(lowers.iter().cloned());
             let ov: VfsPath = OverlayFS::new(&layers).into();
+            if layout == "late-upper" { upper.create_dir().unwrap(); }
             // pre-populated upper layer (C08: all layer contents): an entry and a marker for the same path side by side
             upper.join("s").unwrap().create_file().unwrap().write_all(b"s").unwrap();
             upper.join(".whiteout").unwrap().create_dir_all().unwrap(); upper.join(".whiteout/s_wo").unwrap().create_file().unwrap();
@@ -518,8 +524,9 @@ fn oracle_overlay(depth: usize) -> bool {
                 }
                 None
             }));
-            match res { Err(_) => r.fail(format!("layers={} {:?}", nlayers, seq), "panicked".into()), Ok(Some(d)) => r.fail(format!("layers={} {:?}", nlayers, seq), d), Ok(None) => {} }
+            match res { Err(_) => r.fail(format!("layout={} layers={} {:?}", layout, nlayers, seq), "panicked".into()), Ok(Some(d)) => r.fail(format!("layout={} layers={} {:?}", layout, nlayers, seq), d), Ok(None) => {} }
         }
+    }
     }
     r.done()
 }
